@@ -172,14 +172,14 @@ Proof.
     lia.
 Qed.
 
-Lemma core_ray_up w qx qy ax ay bx by_ : w < qx -> w < ax -> w < bx -> ay < by_ ->
+Lemma core_ray_up w qx qy ax ay bx by_ : w < qx -> w <= ax -> w <= bx -> ay < by_ ->
   let c := cross (ax, ay) (bx, by_) (qx, qy) in
   match fli_core (w, qy) (qx, qy) (ax, ay) (bx, by_) with
   | None => ~ (ay <= qy <= by_) \/ 0 < c
   | Some (xn, yn, dv, flag) =>
       ay <= qy <= by_ /\ c <= 0 /\
       ((xn =? qx * dv) && (yn =? qy * dv)) = (c =? 0) /\
-      flag = ((c =? 0) || (ay =? qy) || (by_ =? qy))
+      flag = ((xn =? w * dv) || (c =? 0) || (ay =? qy) || (by_ =? qy))
   end.
 Proof.
   intros Hq Ha Hb Hab c.
@@ -219,7 +219,7 @@ Proof.
   { repeat split; intros. - apply Z.mul_pos_pos; lia. - apply Z.mul_pos_neg; lia. - subst c. lia. }
   assert (Hw : 0 <= u -> 0 <= v -> Z.min ax bx * dv <= xn <= Z.max ax bx * dv).
   { intros. apply wavg_bounds; lia. }
-  assert (Hwm : w * dv < Z.min ax bx * dv) by (apply Z.mul_lt_mono_pos_r; lia).
+  assert (Hwm : w * dv <= Z.min ax bx * dv) by (apply Z.mul_le_mono_nonneg_r; lia).
   assert (Hmq : 0 <= u -> 0 <= v -> Z.min ax bx <= qx \/ 0 < c).
   { intros. destruct (Z.lt_ge_cases 0 c); [right; assumption|left].
     assert (k * c <= 0) by (destruct (Z.eq_dec c 0); [lia|]; assert (k * c < 0) by (apply Hsgn; lia); lia).
@@ -233,7 +233,7 @@ Proof.
   - lia.
 Qed.
 
-Lemma core_ray w p a b : w < px p -> w < px a -> w < px b ->
+Lemma core_ray w p a b : w < px p -> w <= px a -> w <= px b ->
   let c := cross a b p in
   match fli_core (w, py p) p a b with
   | None => py a = py b \/ ~ (Z.min (py a) (py b) <= py p <= Z.max (py a) (py b)) \/
@@ -242,7 +242,7 @@ Lemma core_ray w p a b : w < px p -> w < px a -> w < px b ->
       py a <> py b /\ Z.min (py a) (py b) <= py p <= Z.max (py a) (py b) /\
       c * (py b - py a) <= 0 /\
       ((xn =? px p * dv) && (yn =? py p * dv)) = (c =? 0) /\
-      flag = ((c =? 0) || (py a =? py p) || (py b =? py p))
+      flag = ((xn =? w * dv) || (c =? 0) || (py a =? py p) || (py b =? py p))
   end.
 Proof.
   destruct p as [qx qy], a as [ax ay], b as [bx by_]. cbn [px py fst snd]. intros Hq Ha Hb. set (c := cross (ax, ay) (bx, by_) (qx, qy)).
@@ -265,7 +265,7 @@ Proof.
       assert (c * (by_ - ay) <= 0) by (apply Z.mul_nonneg_nonpos; lia).
       split; [lia|]. split; [lia|]. split; [assumption|]. split.
       * rewrite H3. lia.
-      * rewrite H4. destruct (- c =? 0) eqn:?, (c =? 0) eqn:?, (by_ =? qy), (ay =? qy); try reflexivity; lia.
+      * rewrite H4. destruct (xn =? w * dv), (- c =? 0) eqn:?, (c =? 0) eqn:?, (by_ =? qy), (ay =? qy); try reflexivity; lia.
     + destruct H as [H|H]; [right; left; lia|right; right; apply Z.mul_neg_neg; lia].
 Qed.
 
@@ -346,16 +346,35 @@ Proof.
   destruct (px b <? px a); [apply core_swap2|reflexivity].
 Qed.
 
-Lemma fliZ_ray_eq p a b : px p < px a -> px p < px b -> fliZ (p, (px p, py p)) (a, b) = None.
+(* a degenerate ray (query on the line lon = w) meets nothing: div = 0 *)
+Lemma fliZ_ray_deg p a b : fliZ (p, (px p, py p)) (a, b) = None.
 Proof.
-  intros Ha Hb. unfold fliZ, ordx. cbn [px py fst snd].
+  unfold fliZ, ordx. cbn [px py fst snd].
   replace (px p <? px p) with false by lia.
-  destruct (px b <? px a); unfold fli_core, bounds_overlap; cbn [px py fst snd];
-    match goal with |- (if negb (?x && _) then _ else _) = _ => replace x with false by lia end;
-    reflexivity.
+  destruct (px b <? px a); unfold fli_core; cbn [px py fst snd];
+    (destruct (negb _); [reflexivity|]);
+    match goal with |- (if ?d =? 0 then _ else _) = _ => replace d with 0 by ring end; reflexivity.
 Qed.
 
-Lemma estep_geo w p a b : w <= px p -> w < px a -> w < px b ->
+(* weak forms: edge not west of p *)
+Lemma west_side_nonneg p a b : px p <= px a -> px p <= px b -> straddles p a b = true ->
+  0 <= cross a b p * (py b - py a).
+Proof.
+  rewrite straddles_cases.
+  destruct p as [qx qy], a as [ax ay], b as [bx by_]. unfold cross. cbn [px py fst snd].
+  intros Ha Hb H.
+  replace ((bx - ax) * (qy - ay) - (by_ - ay) * (qx - ax))
+    with ((bx - qx) * (qy - ay) + (ax - qx) * (by_ - qy)) by ring.
+  destruct H as [H|H].
+  - assert (0 <= (bx - qx) * (qy - ay)) by (apply Z.mul_nonneg_nonneg; lia).
+    assert (0 <= (ax - qx) * (by_ - qy)) by (apply Z.mul_nonneg_nonneg; lia).
+    apply Z.mul_nonneg_nonneg; lia.
+  - assert ((bx - qx) * (qy - ay) <= 0) by (apply Z.mul_nonneg_nonpos; lia).
+    assert ((ax - qx) * (by_ - qy) <= 0) by (apply Z.mul_nonneg_nonpos; lia).
+    apply Z.mul_nonpos_nonpos; lia.
+Qed.
+
+Lemma estep_geo w p a b : w < px p -> w <= px a -> w <= px b ->
   estep w p (a, b) = if on_segb p a b then None else Some (west_z p (a, b)).
 Proof.
   intros Hp Ha Hb. unfold estep.
@@ -364,39 +383,46 @@ Proof.
   { replace (on_segb p a b) with true; [reflexivity|]. symmetry. apply on_segb_spec.
     unfold on_seg, cross. assert (py a = py b) by lia. assert (py b = py p) by lia.
     replace (py p - py a) with 0 by lia. replace (py b - py a) with 0 by lia. lia. }
-  destruct (Z.eq_dec w (px p)) as [->|Hne].
-  - rewrite fliZ_ray_eq by assumption.
-    replace (on_segb p a b) with false by (unfold on_segb; lia).
-    f_equal. unfold west_z. destruct (straddles p a b) eqn:Es; [|reflexivity].
-    pose proof (west_side_pos p a b Ha Hb Es). cbn [andb]. lia.
-  - rewrite fliZ_ray_lt by lia.
-    pose proof (core_ray w p a b ltac:(lia) Ha Hb) as H.
-    set (c := cross a b p) in *.
-    pose proof (straddles_cases p a b) as Hs.
-    assert (Hol : c = 0 -> py a <> py b ->
-                  Z.min (py a) (py b) <= py p <= Z.max (py a) (py b) ->
-                  Z.min (px a) (px b) <= px p <= Z.max (px a) (px b))
-      by (apply on_line_x).
-    assert (Hz : c * (py b - py a) = 0 -> c = 0 \/ py b - py a = 0) by (apply Z.mul_eq_0).
-    assert (Hz0 : c = 0 -> c * (py b - py a) = 0) by (intros ->; reflexivity).
-    unfold west_z, on_segb. fold c.
-    destruct (fli_core _ _ _ _) as [[[[xn yn] dv] flag]|].
-    + destruct H as (H1 & H2 & H3 & H4 & H5). rewrite H4, H5.
-      clearbody c.
-      destruct (c =? 0) eqn:Ec.
-      * cbn [orb]. replace (_ && _) with true by lia. reflexivity.
-      * cbn [orb andb].
-        destruct ((py a =? py p) || (py b =? py p)) eqn:Ef.
-        -- destruct (Z.max (py a) (py b) <=? py p) eqn:Em; f_equal.
-           ++ destruct (straddles p a b); [exfalso; destruct (proj1 Hs eq_refl); lia|reflexivity].
-           ++ destruct (straddles p a b); [cbn [andb]; lia|].
-              exfalso.
-              assert (false = true) by (apply Hs; lia). discriminate.
-        -- f_equal. destruct (straddles p a b); [cbn [andb]; lia|].
-           exfalso. assert (false = true) by (apply Hs; lia). discriminate.
-    + clearbody c.
-      destruct ((c =? 0) && _ && _ && _ && _) eqn:Eo.
-      * exfalso. destruct H as [H|[H|H]]; lia.
-      * f_equal. destruct (straddles p a b); [|reflexivity]. cbn [andb].
-        destruct (proj1 Hs eq_refl); destruct H as [H|[H|H]]; lia.
+  rewrite fliZ_ray_lt by lia.
+  pose proof (core_ray w p a b Hp Ha Hb) as H.
+  set (c := cross a b p) in *.
+  pose proof (straddles_cases p a b) as Hs.
+  assert (Hol : c = 0 -> py a <> py b ->
+                Z.min (py a) (py b) <= py p <= Z.max (py a) (py b) ->
+                Z.min (px a) (px b) <= px p <= Z.max (px a) (px b))
+    by (apply on_line_x).
+  assert (Hz : c * (py b - py a) = 0 -> c = 0 \/ py b - py a = 0) by (apply Z.mul_eq_0).
+  assert (Hz0 : c = 0 -> c * (py b - py a) = 0) by (intros ->; reflexivity).
+  unfold west_z, on_segb. fold c.
+  destruct (fli_core _ _ _ _) as [[[[xn yn] dv] flag]|].
+  + destruct H as (H1 & H2 & H3 & H4 & H5). rewrite H4, H5.
+    clearbody c.
+    destruct (c =? 0) eqn:Ec.
+    * rewrite orb_true_r. cbn [orb]. replace (_ && _) with true by lia. reflexivity.
+    * rewrite orb_false_r. cbn [andb].
+      destruct ((py a =? py p) || (py b =? py p)) eqn:Ef.
+      -- rewrite <- orb_assoc, Ef, orb_true_r.
+         destruct (Z.max (py a) (py b) <=? py p) eqn:Em; f_equal.
+         ++ destruct (straddles p a b); [exfalso; destruct (proj1 Hs eq_refl); lia|reflexivity].
+         ++ destruct (straddles p a b); [cbn [andb]; lia|].
+            exfalso.
+            assert (false = true) by (apply Hs; lia). discriminate.
+      -- rewrite <- orb_assoc, Ef, orb_false_r.
+         assert (Hst : straddles p a b = true) by (apply Hs; lia).
+         assert (Hmx : (Z.max (py a) (py b) <=? py p) = false) by lia.
+         rewrite Hst, Hmx. cbn [andb].
+         destruct (xn =? w * dv); f_equal; lia.
+  + clearbody c.
+    destruct ((c =? 0) && _ && _ && _ && _) eqn:Eo.
+    * exfalso. destruct H as [H|[H|H]]; lia.
+    * f_equal. destruct (straddles p a b); [|reflexivity]. cbn [andb].
+      destruct (proj1 Hs eq_refl); destruct H as [H|[H|H]]; lia.
+Qed.
+
+(* query on the line lon = w, no vertex west of it: nothing is counted, and a boundary hit is
+   reported only on a horizontal edge *)
+Lemma estep_deg p a b : estep (px p) p (a, b) = None \/ estep (px p) p (a, b) = Some false.
+Proof.
+  unfold estep. destruct (_ && _ && _ && _); [left; reflexivity|].
+  rewrite fliZ_ray_deg. right; reflexivity.
 Qed.
